@@ -38,9 +38,11 @@ func NewUnpackInfo(dst string, header *tar.Header) (UnpackInfo, error) {
 	}
 	path = filepath.Join(dst, path)
 
-	// Check for paths outside our directory, they are forbidden
-	target := filepath.Clean(path)
-	if !strings.HasPrefix(target, dst) {
+	// Check for paths outside our directory, they are forbidden. The test is
+	// made on path segments, so that a sibling of dst whose name merely
+	// starts with dst's name (dst-other) is not mistaken for dst itself.
+	rel, err := filepath.Rel(dst, path)
+	if err != nil || rel == ".." || strings.HasPrefix(rel, ".."+string(filepath.Separator)) {
 		return UnpackInfo{}, errors.New("invalid filename, traversal with \"..\" outside of current directory")
 	}
 
